@@ -168,6 +168,7 @@ def main():
     ap.add_argument("--dir", default=os.path.join(lib.OUT, "harvest"))
     ap.add_argument("--reuse", action="store_true")
     a = ap.parse_args()
+    a.dir = os.path.abspath(a.dir)
     if not a.reuse:
         produce(lib.build_harness("dev"), a.dir, [int(x) for x in a.seeds.split(",")])
     best, cnt = collect(a.dir)
